@@ -743,9 +743,9 @@ class ValidityProfile(FieldProfile):
             sm = [s for s in same if st.h[s].fm.nvdim == ha.fm.nvdim and st.h[s].fm.array.dtype.kind != "c"]
             b = rng.choice(sm) if sm and rng.random() < 0.7 else {"num": 2.0}
             return {"op": "A.ufunc", "f": rng.choice(["add", "multiply", "subtract"]), "args": [a, b] if rng.random() < 0.6 or isinstance(b, int) else [b, a], "out": out}
-        if r < 0.44:
+        if r < 0.46:
             # a number on the left: 0 + f, 1 * f, ... are results like any other
-            return {"op": "A.binary", "a": a, "b": {"num": rng.choice([0, 0, 1, 2, -1])}, "f": rng.choice(["add", "add", "mul", "sub"]), "reflected": rng.random() < 0.7, "out": out}
+            return {"op": "A.binary", "a": a, "b": {"num": rng.choice([0, 0, 1, 1, 1.0, 2, -1])}, "f": rng.choice(["add", "add", "mul", "mul", "sub"]), "reflected": rng.random() < 0.7, "out": out}
         if r < 0.55:
             b = rng.choice(same)
             if st.h[b].fm.nvdim not in (1, ha.fm.nvdim) and ha.fm.nvdim != 1:
